@@ -231,16 +231,6 @@ pub fn probe_acp(attrs: &[&str]) -> Entry<EntryInit, EntryNew> {
     e
 }
 
-/// Attributes carried by the probe entry that no built-in profile lets an ordinary account read;
-/// they are the "indicator bits" of the effective access decision.
-pub const INDICATORS: [&str; 5] = [
-    "legalname",
-    "mail",
-    "account_expire",
-    "account_valid_from",
-    "description",
-];
-
 pub fn target_person() -> Entry<EntryInit, EntryNew> {
     let mut e = person(U_TARGET, "fs_target", "probe target");
     e.add_ava(Attribute::LegalName, Value::new_utf8s("Probe Target"));
